@@ -324,6 +324,42 @@ def run_named(env, eng, res, rnd):
     eng.flush()
 
 
+def run_spacing(env, eng, res, rnd):
+    """blanks inside the brackets of an array declarator are not part of the length: `a[ EOF ]`, `a[\tn & 3 ]`, `a[ 2 ][ ]` must parse
+    exactly like `a[EOF]`, `a[n & 3]`, `a[2][]` (same values, same consumed bytes) - found missing for EOF (fixed: F52)"""
+    import re
+
+    tier = env["tier"]
+    trees = [t for t in make_trees(rnd, "quick")]
+    rnd.shuffle(trees)
+    for form, en, tree in trees[: (40 if tier == "quick" else 400)]:
+        endian, align, compiled = rnd.choice("<>"), rnd.random() < 0.5, rnd.random() < 0.5
+        L, err = load(tree, endian=endian, align=align, compiled=compiled)
+        if L is None:
+            continue
+        pad = lambda: rnd.choice([" ", "  ", "\t", " \t ", ""])  # noqa: E731
+        text2 = re.sub(r"\[([^\[\]]*)\]", lambda m: "[" + pad() + m.group(1) + pad() + "]", L.text)
+        if text2 == L.text:
+            continue
+        res.feat(f"bracket-spacing:{form}")
+        case = {"definition": L.text, "spaced": text2, "endian": endian, "align": align, "compiled": compiled}
+        try:
+            cs2 = impl.dc().cstruct(endian=endian, pointer="uint64")
+            cs2.load(text2, compiled=compiled, align=align)
+            T2 = cs2.T
+        except Exception as e:  # noqa: BLE001
+            eng.report(f"the definition with blanks inside the array brackets is rejected: {type(e).__name__}: {e}", case, [])
+            continue
+        cfg = refimpl.Cfg(endian, align, "uint64", impl.CONSTS)
+        for _ in range(3):
+            data = make_input(rnd, form, tree, cfg)
+            a, b = real_parse(L.T, data, 0)[0], real_parse(T2, data, 0)[0]
+            res.count(("spacing", L.text, text2, endian, align, compiled, data), True)
+            same = a[0] == b[0] and (a[1:] == b[1:] if a[0] != "ok" else (impl.same_val(a[1], b[1]) and a[2] == b[2]))
+            if not same:
+                eng.report(f"blanks inside the array brackets change the parse: with blanks {str(b)[:200]}, without {str(a)[:200]}", dict(case, data=data.hex()), [])
+
+
 def run(env) -> Result:
     res = Result()
     res.rule = ("directed product: 21 element types (packed ints, odd-width ints, char, wchar, floats, enum/flag, LEB128, pointer, void, fixed "
@@ -364,6 +400,8 @@ def run(env) -> Result:
     run_mixed(env, eng, res, mkrng(env["seed"], "c07-mixed"))
     run_straddle(env, eng, res, mkrng(env["seed"], "c07-straddle"))
     run_named(env, eng, res, mkrng(env["seed"], "c07-named"))
+    run_spacing(env, eng, res, mkrng(env["seed"], "c07-spacing"))
+    eng.flush()
     return res
 
 
